@@ -198,23 +198,19 @@ Fixpoint ceval (e : cexpr) (mu : amap) : option cval :=
               | None => None
               end
   | COr a b =>
-      match ceval a mu, ceval b mu with
-      | Some x, Some y =>
-          match c_is_truthy x, c_is_truthy y with
-          | Some p, Some q => Some (vbool (p || q))
-          | Some true, None | None, Some true => Some (vbool true)
-          | _, _ => None
-          end
+      (* an operand whose evaluation raises an error counts as an error operand (section 17.2);
+         before the fix "|| and && follow the three-valued logic" it made the whole expression fail *)
+      match (match ceval a mu with Some x => c_is_truthy x | None => None end),
+            (match ceval b mu with Some y => c_is_truthy y | None => None end) with
+      | Some p, Some q => Some (vbool (p || q))
+      | Some true, None | None, Some true => Some (vbool true)
       | _, _ => None
       end
   | CAnd a b =>
-      match ceval a mu, ceval b mu with
-      | Some x, Some y =>
-          match c_is_truthy x, c_is_truthy y with
-          | Some p, Some q => Some (vbool (p && q))
-          | Some false, None | None, Some false => Some (vbool false)
-          | _, _ => None
-          end
+      match (match ceval a mu with Some x => c_is_truthy x | None => None end),
+            (match ceval b mu with Some y => c_is_truthy y | None => None end) with
+      | Some p, Some q => Some (vbool (p && q))
+      | Some false, None | None, Some false => Some (vbool false)
       | _, _ => None
       end
   | CEqual a b =>
